@@ -1,14 +1,21 @@
 import ScrapliProps.C14Lemmas
 /-
   C14 — per-call timeout overrides never outlive the call.
-  Property theorems only (helper lemmas and the spec definitions `Coherent`, `bad`, `nbad`:
+  Property theorems only (helper lemmas and the spec definitions `Coherent`, `badCore`, `bad`, `nbad`, `PushesOk`:
   C14Lemmas.lean).  Quantifiers: every value type and every interpretation of `int()` / `>= 0`
   (`ValOps`), every initial state, EVERY sequence of operations (send_command(s), send_and_read,
   send_interactive, send_configs, read_callback with any callbacks / next_timeouts; Generic and
   Network driver), every override (None, equal, any number, a non-number), and EVERY tape of
-  outcomes: each inner call site returns or raises any exception class, loops run any number of
-  rounds, callbacks match in any order, recursion of read_callback to any depth.
-  `step.st` is the state the connection is left in after each call of the sequence.
+  outcomes: each inner call site — including `transport._set_timeout` inside the timeout_transport setter —
+  returns or raises any exception class, loops run any number of rounds, callbacks match in any order,
+  recursion of read_callback to any depth.  `step.st` is the state the connection is left in after each call.
+
+  Labels.  `restore_full`: the full statement, for shapes with `sh.all` (three `finally`s, read_callback's swap
+  inside its `try`, and the channel's swap inside its `try` or exceptions at call sites only).  The tree the check runs
+  against (from 82202ec on) satisfies `sh.all` on both stacks (`tree_shape_fixed`, generated flags), hence
+  `restore_full_sync` / `restore_full_async` / `restore_full_sync_asyncExc`.  The `…_refuted_…` / `…_partial` theorems
+  document the earlier trees: before 9d6a16c (F5), 9d6a16c–5ccd86d (C14-F2, a raising `_set_timeout` in the swap before
+  the try), before 82202ec (C14-F3, an exception arriving between the channel's swap and its try).
 -/
 namespace Scrapli.TimeoutRestore
 open Scrapli.Gen.TimeoutRestore
@@ -16,39 +23,49 @@ open Scrapli.Gen.TimeoutRestore
 section general
 variable {α : Type} [DecidableEq α]
 
-/-- **C14, general form** (any tree whose `timeout_modifier` restores in `finally`): if no
-    exception escaped a temporary-`timeout_transport` region that lacks a `finally` (`nbad = 0`;
-    vacuous when every restore stands in a `finally`), then after every call of the sequence
-    `timeout_ops` and `timeout_transport` are what they were before the first call, and so is the
-    value held by the library session. -/
+/-- **C14, general form** (any tree whose `timeout_modifier` restores in `finally`): if no exception escaped a
+    temporary-`timeout_transport` region that lacks a `finally` and no `_set_timeout` raised at a swap standing
+    outside its `try` (`nbad sh false = 0`; vacuous for `Shape.fixed`), then after every call of the sequence
+    `timeout_ops` and `timeout_transport` are what they were before the first call; if moreover no `_set_timeout`
+    raised at all (`nbad sh true = 0`), so is the value held by the library session (coherent start). -/
 theorem restore_general (sh : Shape) (hmod : sh.modFinally = true) (V : ValOps α)
     (ops : List (Op α)) (tape : List Ev) (s : St α)
-    (hclean : nbad sh (run sh V ops tape s).2 = 0) :
+    (hclean : nbad sh false (run sh V ops tape s).2 = 0) :
     ∀ step ∈ (run sh V ops tape s).1,
-      step.st.ops = s.ops ∧ step.st.tr = s.tr ∧ (Coherent s → step.st = s) := by
+      step.st.ops = s.ops ∧ step.st.tr = s.tr ∧
+      (nbad sh true (run sh V ops tape s).2 = 0 → Coherent s → step.st = s) := by
   intro step hstep
-  obtain ⟨_, h⟩ := runOps_spec hmod V (fuelFor tape) ops ({ st := s, tape := tape } : Ctx α)
+  obtain ⟨_, h⟩ := runOps_spec (q := false) hmod V (fuelFor tape) ops ({ st := s, tape := tape } : Ctx α)
   obtain ⟨h1, h2⟩ := h step hstep
-  have h0 : nbad sh ({ st := s, tape := tape } : Ctx α) = 0 := rfl
-  obtain ⟨h3, h4⟩ := h2 (by rw [h0]; exact hclean)
-  refine ⟨h1, h3, fun hc => ?_⟩
-  have h5 := h4 hc
+  have h0 : ∀ q, nbad sh q ({ st := s, tape := tape } : Ctx α) = 0 := fun _ => rfl
+  obtain ⟨h3, _⟩ := h2 (by rw [h0]; exact hclean)
+  refine ⟨h1, h3, fun hstrict hc => ?_⟩
+  obtain ⟨_, h'⟩ := runOps_spec (q := true) hmod V (fuelFor tape) ops ({ st := s, tape := tape } : Ctx α)
+  obtain ⟨_, h2'⟩ := h' step hstep
+  obtain ⟨_, h4⟩ := h2' (by rw [h0]; exact hstrict)
+  have h5 := h4 rfl hc
   cases hs : step.st with
   | mk o t ss =>
     rw [hs] at h1 h3 h5
     cases s
     simp_all
 
-/-- **C14 (restore_full)** — the tree in which every restore stands in a `finally`
-    (the code after fix 9d6a16c): for every sequence of calls, every override, every outcome at
-    every inner call site, the state after each call equals the state before the first. -/
+/-- **C14 (restore_full)** — a tree in which every restore stands in a `finally` and read_callback swaps inside its
+    `try` (`Shape.fixed`): for every sequence of calls, every override, every outcome at every inner call site
+    INCLUDING a `_set_timeout` that raises, `timeout_ops` and `timeout_transport` after each call equal those before
+    the first; the session value too on runs in which every `_set_timeout` returned. -/
 theorem restore_full (sh : Shape) (hall : sh.all = true) (V : ValOps α)
     (ops : List (Op α)) (tape : List Ev) (s : St α) :
     ∀ step ∈ (run sh V ops tape s).1,
-      step.st.ops = s.ops ∧ step.st.tr = s.tr ∧ (Coherent s → step.st = s) := by
-  have h : sh.modFinally = true ∧ sh.chanFinally = true ∧ sh.cbFinally = true := by
-    simpa [Shape.all, Bool.and_eq_true, and_assoc] using hall
-  exact restore_general sh h.1 V ops tape s (nbad_fixed sh h.2.1 h.2.2 _)
+      step.st.ops = s.ops ∧ step.st.tr = s.tr ∧
+      (PushesOk (run sh V ops tape s).2 → Coherent s → step.st = s) := by
+  have h : sh.modFinally = true ∧ sh.chanFinally = true ∧ sh.cbFinally = true ∧ sh.cbSwapInTry = true ∧
+      (sh.chanSwapInTry = true ∨ sh.asyncExc = false) := by
+    simpa [Shape.all, Shape.finallys, Bool.and_eq_true, and_assoc] using hall
+  intro step hstep
+  obtain ⟨h1, h2, h3⟩ :=
+    restore_general sh h.1 V ops tape s (nbad_fixed sh h.2.1 h.2.2.1 h.2.2.2.1 h.2.2.2.2 _) step hstep
+  exact ⟨h1, h2, fun hp => h3 (nbad_strict_fixed sh h.2.1 h.2.2.1 h.2.2.2.1 h.2.2.2.2 _ hp)⟩
 
 /-- **C14 for `timeout_ops` alone**: restored after every call on every tape, whatever the
     channel / read_callback code does about `timeout_transport` (this held before the fix too). -/
@@ -56,15 +73,26 @@ theorem restore_ops (sh : Shape) (hmod : sh.modFinally = true) (V : ValOps α)
     (ops : List (Op α)) (tape : List Ev) (s : St α) :
     ∀ step ∈ (run sh V ops tape s).1, step.st.ops = s.ops := by
   intro step hstep
-  exact ((runOps_spec hmod V (fuelFor tape) ops ({ st := s, tape := tape } : Ctx α)).2 step hstep).1
+  exact ((runOps_spec (q := false) hmod V (fuelFor tape) ops ({ st := s, tape := tape } : Ctx α)).2 step hstep).1
 
-/-- **pre-fix tree, partial**: on the code before 9d6a16c the property holds exactly on the runs
-    in which no exception other than a suppressed / handled ScrapliTimeout left the swapped region
-    of `_read_until_prompt_or_time` / `read_callback`. -/
+/-- **the tree from 9d6a16c to 5ccd86d, partial** (three `finally`s, read_callback's swap BEFORE its `try`): the property
+    holds exactly on the runs in which `transport._set_timeout` does not raise inside that swapping assignment
+    (finding C14-F2). -/
+theorem restore_swapOutside_partial (V : ValOps α) (ops : List (Op α)) (tape : List Ev) (s : St α)
+    (hclean : nbad Shape.swapOutside false (run Shape.swapOutside V ops tape s).2 = 0) :
+    ∀ step ∈ (run Shape.swapOutside V ops tape s).1,
+      step.st.ops = s.ops ∧ step.st.tr = s.tr ∧
+      (nbad Shape.swapOutside true (run Shape.swapOutside V ops tape s).2 = 0 → Coherent s → step.st = s) :=
+  restore_general Shape.swapOutside rfl V ops tape s hclean
+
+/-- **pre-fix tree (before 9d6a16c), partial**: the property holds exactly on the runs in which no exception other
+    than a suppressed / handled ScrapliTimeout left the swapped region of `_read_until_prompt_or_time` /
+    `read_callback` (pushes that raise are not modelled for this shape). -/
 theorem restore_partial (V : ValOps α) (ops : List (Op α)) (tape : List Ev) (s : St α)
-    (hclean : nbad Shape.prefix (run Shape.prefix V ops tape s).2 = 0) :
+    (hclean : nbad Shape.prefix false (run Shape.prefix V ops tape s).2 = 0) :
     ∀ step ∈ (run Shape.prefix V ops tape s).1,
-      step.st.ops = s.ops ∧ step.st.tr = s.tr ∧ (Coherent s → step.st = s) :=
+      step.st.ops = s.ops ∧ step.st.tr = s.tr ∧
+      (nbad Shape.prefix true (run Shape.prefix V ops tape s).2 = 0 → Coherent s → step.st = s) :=
   restore_general Shape.prefix rfl V ops tape s hclean
 
 end general
@@ -75,20 +103,23 @@ end general
 def s0 : St Int := ⟨30000, 7000, some 7000⟩
 
 /-- send_command(timeout_ops=5) ; send_and_read(timeout_ops=3, read_duration=1.5) ;
-    read_callback(initial_input, read_timeout=4.5, two callbacks) -/
+    read_callback(initial_input, read_timeout=4.5, two callbacks) ; read_callback(read_timeout=2) -/
 def wOps : List (Op Int) :=
   [.sendCommand false (.num 5000), .sendAndRead (.num 3000) (some 1500),
-   .readCallback true 4500 [⟨false, 500⟩, ⟨true, -1000⟩]]
+   .readCallback true 4500 [⟨false, 500⟩, ⟨true, -1000⟩], .readCallback false 2000 []]
 
 /-- send_input times out | pre, write, echo, return fine, one read, then the connection drops |
-    write, read fine, the first callback's check raises (class 3) -/
+    write, (push), read fine, the first callback's check raises (class 3), (push) |
+    `_set_timeout` raises inside the swapping assignment, (restoring push fine).
+    (the pushes are consumed by the shapes with a `finally` in read_callback only) -/
 def wTape : List Ev :=
   [{}, ⟨some .timeout, false⟩,
    {}, {}, {}, {}, {}, ⟨some .conn, false⟩,
-   {}, {}, ⟨some (.other 3), false⟩]
+   {}, {}, {}, ⟨some (.other 3), false⟩, {},
+   ⟨some .conn, false⟩, {}]
 
 /-- **pre-fix tree, full statement refuted**: the run above leaves timeout_transport = 1
-    (= int(1.5)) after the second call and 4.5 after the third. -/
+    (= int(1.5)) after the second call. -/
 theorem restore_full_refuted_prefix :
     ¬ ∀ (ops : List (Op Int)) (tape : List Ev) (s : St Int),
         ∀ step ∈ (run Shape.prefix (milli false) ops tape s).1, step.st.tr = s.tr := by
@@ -101,42 +132,89 @@ theorem restore_full_refuted_prefix :
 theorem prefix_witness_states :
     (run Shape.prefix (milli false) wOps wTape s0).1.map (fun st => (st.res, st.st.ops, st.st.tr, st.st.sess)) =
       [(some .timeout, 30000, 7000, some 7000), (some .conn, 30000, 1000, some 7000),
-       (some (.other 3), 30000, 4500, some 4500)] := by decide
+       (some (.other 3), 30000, 4500, some 4500), (some .conn, 30000, 2000, some 2000)] := by decide
 
-/-- **the restores must be in `finally`, all three of them**: a shape satisfies the full
-    statement if and only if every restore stands in a `finally`. -/
+/-- **the tree from 9d6a16c to 5ccd86d, full statement refuted** (finding C14-F2, fixed by 5ccd86d): `read_callback(read_timeout=4.5)` on a
+    session whose `_set_timeout` raises (paramiko/ssh2 without a session) leaves timeout_transport = 4.5 -/
+theorem restore_full_refuted_swapOutside :
+    ¬ ∀ (ops : List (Op Int)) (tape : List Ev) (s : St Int),
+        ∀ step ∈ (run Shape.swapOutside (milli false) ops tape s).1, step.st.tr = s.tr := by
+  intro h
+  have := h [.readCallback false 4500 []] [⟨some .conn, false⟩] s0
+  revert this
+  decide
+
+/-- what that tree leaves behind on the long witness: only the last call (the raising push) leaks -/
+theorem swapOutside_witness_states :
+    (run Shape.swapOutside (milli false) wOps wTape s0).1.map (fun st => (st.res, st.st.ops, st.st.tr, st.st.sess)) =
+      [(some .timeout, 30000, 7000, some 7000), (some .conn, 30000, 7000, some 7000),
+       (some (.other 3), 30000, 7000, some 7000), (some .conn, 30000, 2000, some 7000)] := by decide
+
+/-- **the tree before 82202ec under an asynchronous exception, refuted** (finding C14-F3, fixed by 82202ec): if an exception can also arrive between the
+    swapping assignment of `_read_until_prompt_or_time` and its `try` — the SIGALRM of the sync ops timer, observed on
+    the real code — a tree with every restore in a `finally` but the channel's swap BEFORE its try leaves
+    timeout_transport = int(read_duration) behind.  (With the swap inside the try the statement survives:
+    `restore_full` covers `asyncExc = true` when `chanSwapInTry = true`.) -/
+theorem restore_full_refuted_asyncExc :
+    ¬ ∀ (ops : List (Op Int)) (tape : List Ev) (s : St Int),
+        ∀ step ∈ (run ⟨true, true, true, true, false, true⟩ (milli false) ops tape s).1, step.st.tr = s.tr := by
+  intro h
+  have := h [.sendAndRead (.num 3000) (some 1500)] [{}, {}, {}, {}, ⟨some .timeout, false⟩] s0
+  revert this
+  decide
+
+/-- the long witness plus a fifth call, send_and_read(read_duration=1.5), during which a ScrapliTimeout arrives right
+    after `send_return` (at the gap if there is one, else at the first read, where it is suppressed) -/
+def wOps5 : List (Op Int) := wOps ++ [.sendAndRead .none (some 1500)]
+def wTape5 : List Ev := wTape ++ ([{}, {}, {}, {}, ⟨some .timeout, false⟩] : List Ev)
+
+/-- **every protection is necessary**: a shape satisfies the full statement if and only if the three restores stand in
+    a `finally`, read_callback's swap stands inside its `try`, and the channel's swap stands inside its `try` or no
+    exception arrives between that swap and the `try` (64 shapes). -/
 theorem restore_full_iff (sh : Shape) :
     (∀ (ops : List (Op Int)) (tape : List Ev) (s : St Int),
         ∀ step ∈ (run sh (milli false) ops tape s).1, step.st.ops = s.ops ∧ step.st.tr = s.tr)
       ↔ sh.all = true := by
   constructor
   · intro h
-    have := h wOps wTape s0
+    have := h wOps5 wTape5 s0
     revert this
-    obtain ⟨m, c, b⟩ := sh
-    cases m <;> cases c <;> cases b <;> decide
+    obtain ⟨m, c, b, w, g, a⟩ := sh
+    cases m <;> cases c <;> cases b <;> cases w <;> cases g <;> cases a <;> decide
   · intro hall ops tape s step hstep
     obtain ⟨h1, h2, _⟩ := restore_full sh hall (milli false) ops tape s step hstep
     exact ⟨h1, h2⟩
 
 /-! ### the tree, as read by the translator -/
 
-/-- in the tree the check runs against, every restore stands in a `finally` (sync and asyncio);
-    this is the hypothesis of `restore_full` — it stops checking as soon as one restore leaves its
-    `finally` -/
+/-- in the tree the check runs against (from 82202ec on) the three restores stand in a `finally` and both
+    transport-timeout swaps stand inside their `try`, on both stacks; this is the hypothesis of `restore_full` — it
+    stops checking as soon as one of them leaves its place -/
 theorem tree_shape_fixed : Shape.sync.all = true ∧ Shape.async.all = true := by decide
 
-/-- **C14 for the tree, sync stack** -/
+/-- **C14 for the tree, sync stack** (full statement) -/
 theorem restore_full_sync (ops : List (Op Int)) (tape : List Ev) (s : St Int) :
     ∀ step ∈ (run Shape.sync (milli false) ops tape s).1,
-      step.st.ops = s.ops ∧ step.st.tr = s.tr ∧ (Coherent s → step.st = s) :=
+      step.st.ops = s.ops ∧ step.st.tr = s.tr ∧
+      (PushesOk (run Shape.sync (milli false) ops tape s).2 → Coherent s → step.st = s) :=
   restore_full Shape.sync tree_shape_fixed.1 (milli false) ops tape s
 
-/-- **C14 for the tree, asyncio stack** -/
+/-- **C14 for the tree, asyncio stack** (full statement) -/
 theorem restore_full_async (ops : List (Op Int)) (tape : List Ev) (s : St Int) :
     ∀ step ∈ (run Shape.async (milli true) ops tape s).1,
-      step.st.ops = s.ops ∧ step.st.tr = s.tr ∧ (Coherent s → step.st = s) :=
+      step.st.ops = s.ops ∧ step.st.tr = s.tr ∧
+      (PushesOk (run Shape.async (milli true) ops tape s).2 → Coherent s → step.st = s) :=
   restore_full Shape.async tree_shape_fixed.2 (milli true) ops tape s
+
+/-- **the tree also survives the asynchronous exception** between the channel's swap and its loop (the SIGALRM of the
+    sync ops timer, finding C14-F3 before 82202ec): the statement holds for the generated sync shape with
+    `asyncExc := true` -/
+theorem restore_full_sync_asyncExc (ops : List (Op Int)) (tape : List Ev) (s : St Int) :
+    ∀ step ∈ (run { Shape.sync with asyncExc := true } (milli false) ops tape s).1,
+      step.st.ops = s.ops ∧ step.st.tr = s.tr :=
+  fun step hstep =>
+    let ⟨a, b, _⟩ := restore_full { Shape.sync with asyncExc := true } (by decide) (milli false) ops tape s step hstep
+    ⟨a, b⟩
 
 /-- follow the `timeout_ops=timeout_ops` hand-offs: `m` is decorated, or hands its parameter on
     (at least once) and everything it hands it to gets there within `k` hops -/
@@ -190,19 +268,28 @@ theorem subsecond_duration_truncates_to_zero (b : Bool) (x : Int) (h0 : 0 ≤ x)
 
 /-! ### non-vacuity -/
 
-/-- the hypotheses of `restore_full` are met by `Shape.fixed`; on the witness run all three calls
-    end with an exception inside a swapped region, 11 sites are visited, and the state is `s0`
-    after each call -/
+/-- the hypotheses of `restore_full` are met by `Shape.fixed`; on the witness run all four calls end with an
+    exception (three inside a swapped region, one from `_set_timeout` inside the swapping assignment), 15 sites are
+    visited, and the state is `s0` after each call — here even the session value, although a push raised -/
 example : Shape.fixed.all = true ∧ Coherent s0 ∧
     (run Shape.fixed (milli false) wOps wTape s0).1.map (fun st => (st.res, st.st.ops, st.st.tr, st.st.sess)) =
       [(some .timeout, 30000, 7000, some 7000), (some .conn, 30000, 7000, some 7000),
-       (some (.other 3), 30000, 7000, some 7000)] ∧
-    (run Shape.fixed (milli false) wOps wTape s0).2.log.length = 11 := by decide
+       (some (.other 3), 30000, 7000, some 7000), (some .conn, 30000, 7000, some 7000)] ∧
+    (run Shape.fixed (milli false) wOps wTape s0).2.log.length = 15 ∧
+    ¬ PushesOk (run Shape.fixed (milli false) wOps wTape s0).2 := by decide
+
+/-- the session clause of `restore_full` is not vacuous (a run with pushes, all of which return) and it cannot be
+    had without its hypothesis: when the RESTORING push raises the session keeps the temporary value -/
+example :
+    PushesOk (run Shape.fixed (milli false) [.readCallback false 4500 [⟨true, -1000⟩]] [{}, {}, ⟨none, true⟩, {}, {}] s0).2 ∧
+    (run Shape.fixed (milli false) [.readCallback false 4500 [⟨true, -1000⟩]] [{}, {}, ⟨none, true⟩, {}, {}] s0).2.log.length = 5 ∧
+    (run Shape.fixed (milli false) [.readCallback false 4500 []] [{}, ⟨some .conn, false⟩, ⟨some .conn, false⟩] s0).1.map
+      (fun st => (st.res, st.st.ops, st.st.tr, st.st.sess)) = [(some .conn, 30000, 7000, some 4500)] := by decide
 
 /-- `restore_partial` is not vacuous: a pre-fix run with a suppressed ScrapliTimeout in the read
     loop of send_and_read and a ScrapliTimeout in read_callback's read is clean (`nbad = 0`) -/
 example :
-    nbad Shape.prefix (run Shape.prefix (milli false)
+    nbad Shape.prefix false (run Shape.prefix (milli false)
       [.sendAndRead (.num 3000) (some 1500), .readCallback false 4500 [⟨true, -1000⟩]]
       [{}, {}, {}, {}, ⟨some .timeout, false⟩, ⟨none, true⟩, {}, {}, ⟨some .timeout, false⟩] s0).2 = 0 ∧
     (run Shape.prefix (milli false)
@@ -210,12 +297,30 @@ example :
       [{}, {}, {}, {}, ⟨some .timeout, false⟩, ⟨none, true⟩, {}, {}, ⟨some .timeout, false⟩] s0).1.map (·.res) =
       [none, some .timeout] := by decide
 
+/-- `restore_swapOutside_partial` / `restore_tree_*_partial` are not vacuous: the first three calls of the witness
+    (with their pushes) are a clean run of that shape -/
+example :
+    nbad Shape.swapOutside false (run Shape.swapOutside (milli false) (wOps.take 3) (wTape.take 13) s0).2 = 0 ∧
+    (run Shape.swapOutside (milli false) (wOps.take 3) (wTape.take 13) s0).2.log.length = 13 := by decide
+
+/-- `restore_full` under `asyncExc` is not vacuous: with the channel's swap inside its try, a ScrapliTimeout arriving at
+    the gap is survived (the same tape leaks in `restore_full_refuted_asyncExc`) -/
+example : (⟨true, true, true, true, true, true⟩ : Shape).all = true ∧
+    (run ⟨true, true, true, true, true, true⟩ (milli false) [.sendAndRead (.num 3000) (some 1500)]
+      [{}, {}, {}, {}, ⟨some .timeout, false⟩] s0).1.map (fun st => (st.res, st.st.ops, st.st.tr)) =
+      [(some .timeout, 30000, 7000)] ∧
+    (run ⟨true, true, true, true, true, true⟩ (milli false) [.sendAndRead (.num 3000) (some 1500)]
+      [{}, {}, {}, {}, ⟨some .timeout, false⟩] s0).2.log.map (fun e => (e.site, e.region, e.st.tr)) =
+      [(.pre, .none, 7000), (.write, .none, 7000), (.readUntilInput, .none, 7000), (.sendReturn, .none, 7000),
+       (.gap, .gap, 1000)] := by decide
+
 /-- the override really is in force inside the call: the sites of the witness run see
-    timeout_ops 5 / 3 and timeout_transport 1 (= int(1.5)) / 4.5 -/
+    timeout_ops 5 / 3 and timeout_transport 1 (= int(1.5)) / 4.5 / 2 -/
 example :
     (run Shape.fixed (milli false) wOps wTape s0).2.log.map (fun e => (e.st.ops, e.st.tr)) =
       [(5000, 7000), (5000, 7000),
        (3000, 7000), (3000, 7000), (3000, 7000), (3000, 7000), (3000, 1000), (3000, 1000),
-       (30000, 7000), (30000, 4500), (30000, 4500)] := by decide
+       (30000, 7000), (30000, 4500), (30000, 4500), (30000, 4500), (30000, 7000),
+       (30000, 2000), (30000, 7000)] := by decide
 
 end Scrapli.TimeoutRestore
